@@ -1,11 +1,23 @@
 def c06_parse():
     L = []
-    for n in range(0, 6):
-        for radix in (2, 8, 10, 16, 36, 3, 7, 32):
-            q = (n <= 3 and radix in (10, 16)) or (n == 4 and radix == 10) or (n == 2 and radix in (2, 36, 8))
-            if n == 5 and radix not in (10,):
-                continue
-            L.append("parse_shape!(c06_%s_parse_n%d_r%d, %d, %d);" % (tier(q), n, radix, n, radix))
+    import itertools
+    def pats(n, signed):
+        if n == 0:
+            return [""]
+        firsts = "pux" + ("m" if signed else "")
+        return [f + "".join(r) for f in firsts for r in itertools.product("ux", repeat=n - 1)]
+    for n in range(0, 5):
+        for radix in (10, 16, 2, 36, 8, 3):
+            for signed in (False, True):
+                for pat in pats(n, signed):
+                    if signed and n > 0 and pat[0] != "m" and radix != 10:
+                        continue   # the BigInt wrapper only adds the '-' handling; other first classes once (radix 10)
+                    # a second-position '+' after '-' matters for BigInt ("-+1"): class x in position 2 includes '+'
+                    q = (radix == 10 and n <= 3) or (radix == 16 and n <= 2 and not signed) or (radix in (2, 36) and n == 2 and pat in ("xx", "px", "mx"))
+                    if radix in (8, 3) and n != 2:
+                        continue
+                    L.append('parse_shape!(c06_%s_parse_%s_r%d_%s, %d, %d, b"%s", %s);' % (
+                        tier(q), "int" if signed else "uint", radix, pat if pat else "empty", n, radix, pat, str(signed).lower()))
     for n in (1, 2, 3):
         L.append("parse_bytes_shape!(c06_%s_parse_bytes_%d, %d);" % (tier(n <= 2), n, n))
     for n in range(0, 5):
